@@ -20,7 +20,7 @@
     item of [items] for the value [a] with the formatter and runs [unambiguous_ws_b]. *)
 From Coq Require Import ZArith List Bool.
 From V Require Import Base.Int Base.IO Base.Utf8 Model.Scan Model.Items Model.Parse
-  Proofs.Utf8 Proofs.Scan Proofs.C13 Proofs.C13Reads Proofs.C13Fmt Proofs.C13Examples Proofs.C13Names Proofs.C13Digits.
+  Proofs.Utf8 Proofs.Scan Proofs.C13 Proofs.C13Reads Proofs.C13Fmt Proofs.C13Examples Proofs.C13Names Proofs.C13Digits Proofs.C13Safe.
 From V Require Model.Parsed Model.Format Spec.StrftimeDoc.
 Import ListNotations.
 Open Scope Z_scope.
@@ -212,6 +212,35 @@ Theorem C13_family_member_sound : forall a items ws p, family_member a items [] 
                parse p text items = run_writes ws p.
 Proof. exact family_member_sound. Qed.
 Print Assumptions C13_family_member_sound.
+
+(** ** never-Panic (slice safety): for EVERY well-formed UTF-8 input and every item list whose
+    literals are well-formed strings, parse_internal / parse / parse_and_remainder return a value or
+    a ParseError -- no slice off a char boundary, no index out of bounds, no arithmetic trap -- and the
+    remainder handed on is well-formed again.  PARTIAL: item lists containing the Fixed::RFC2822 item
+    are excluded ([item_ok]); its reader (parse_rfc2822, comment_2822, timezone_offset_2822) is covered
+    by the correspondence run only (C11 owns its theorems). *)
+Theorem C13_parse_internal_safe_partial : forall items p s, forallb item_ok items = true -> wf s ->
+  safe (parse_internal p s items) good.
+Proof. exact parse_internal_safe. Qed.
+Print Assumptions C13_parse_internal_safe_partial.
+
+Theorem C13_parse_never_panics_partial : forall items p s,
+  forallb item_ok items = true -> utf8_valid s = true ->
+  parse p s items <> Panic /\ parse p s items <> OutOfFuel /\
+  parse_and_remainder p s items <> Panic /\ parse_and_remainder p s items <> OutOfFuel.
+Proof. exact parse_never_panics. Qed.
+Print Assumptions C13_parse_never_panics_partial.
+
+(* the relaxed RFC 3339 reader behind %+ and FromStr for DateTime<FixedOffset>, on every input *)
+Theorem C13_rfc3339_relaxed_never_panics : forall p s, wf s -> safe (parse_rfc3339_relaxed p s) good.
+Proof. exact parse_rfc3339_relaxed_safe. Qed.
+Print Assumptions C13_rfc3339_relaxed_never_panics.
+
+(* the offset scanner with any safe colon-consumer, all flag combinations, every input *)
+Theorem C13_timezone_offset_never_panics : forall s cc az am ams,
+  (forall t, wf t -> safe (cc t) wf) -> wf s -> safe (timezone_offset s cc az am ams) (fun x => wf (fst x)).
+Proof. exact timezone_offset_safe. Qed.
+Print Assumptions C13_timezone_offset_never_panics.
 
 (* on a member of the family the reader does not trap (slice safety on the formatted text) *)
 Theorem C13_family_never_panics_partial : forall l tail ws p, unambiguous_b l tail = Some ws ->
